@@ -108,6 +108,21 @@ class HandleModel:
             if d.is_const():
                 return [('', Aff({}, max(d.c, 0)), [])]
             return [('saturating_sub: not saturated', d, [(('cmp', 'Ge', a, b), True)]), ('saturating_sub: saturated to 0', Aff(), [(('cmp', 'Ge', a, b), False)])]
+        if name.endswith('ExactSizeIterator::len') and len(args) == 1:
+            # Range<usize>::len(): end - start, 0 when the range is inverted (decided on the path facts where they decide it)
+            r = args[0]
+            while isinstance(r, tuple) and r and r[0] == 'ref' and len(r) == 2 and isinstance(r[1], tuple):
+                r = r[1]
+            if isinstance(r, tuple) and r and r[0] == 'adt' and r[1].endswith('Range') and len(r[3]) == 2 and all(isinstance(x, Aff) for x in r[3]):
+                a, b = r[3][1], r[3][0]
+                d = a - b
+                if d.is_const():
+                    return [('', Aff({}, max(d.c, 0)), [])]
+                from .symex import entails
+                if entails(p.facts, d):
+                    return [('', d, [])]
+                return [('Range::len: start <= end', d, [(('cmp', 'Ge', a, b), True)]), ('Range::len: inverted, 0', Aff(), [(('cmp', 'Ge', a, b), False)])]
+            return None
         if is_len_fn(name) and args:
             try:
                 return [('', ex.len_of(p, args[0]), [])]
